@@ -217,6 +217,9 @@ def e2e_cases(shard: dict, tier: str):
                     yield {'e2e': name, 'vrl': vrl, 'ics': ics, 'ocs': ocs}
             # label and file header handed over as ready-made objects instead of their parameters
             yield {'e2e': name, 'vrl': vrl, 'ics': None, 'ocs': 2 ** 16, 'objects': True}
+            # a (much longer / shorter) file is already at the target path
+            yield {'e2e': name, 'vrl': vrl, 'ics': None, 'ocs': vrl, 'prior': 300000}
+            yield {'e2e': name, 'vrl': vrl, 'ics': None, 'ocs': 2 ** 16, 'prior': 100}
         # the label is re-configured through its public attributes after the file object was created
         for other in (20, 64, 8192, 16384):
             if other != vrl:
@@ -265,7 +268,7 @@ def run_e2e(case: dict) -> dict:
     if case['ics']:
         sp['write']['input_chunk_size'] = case['ics']
     del TAP[:]
-    res = S.run_spec(sp)
+    res = S.run_spec(sp, pre=(bytes([0x5a, 0xff, 0x01, 0x00]) * (case['prior'] // 4) if case.get('prior') else None))
     given = list(TAP)
     if res['failed_at'] is not None or res['write'] != 'ok':
         return {'exc': res['status'][-1] if res['failed_at'] is not None else res['write'], 'given': given}
